@@ -88,27 +88,18 @@ def rule_R2(ctx, prj):
     ctx.rule("R2", "filter_tokens' predicate, Token.is_whitespace and Token.is_comment evaluated abstractly over token-kind "
                    "class x text class: every Comment.* token is dropped, Text/Whitespace tokens whose text is empty or only "
                    "whitespace are dropped, everything else is kept (defaults read from the signature)", floor=30)
-    interp = Interp(prj)
+    from ..absint import make_token
     ft = prj.func(f"{SRC}:filter_tokens")
-
-    def hook(it, kind, f, args, kwargs, node, cur):
-        if kind == "getattr" and isinstance(f, AToken):
-            return ("atoken", f, args)          # args is the attribute name here
-        if kind == "call" and isinstance(f, tuple) and f and f[0] == "atoken":
-            try:
-                return interp.call_method(f[1], f[2], list(args))
-            except Unsupported as e:
-                raise Unknown(str(e))
-        return NotImplemented
     kinds = ["Text", "Whitespace", "Comment", "Comment.Single", "Comment.Multiline", "Comment.Preproc", "Comment.PreprocFile",
              "Comment.Hashbang", "Comment.Special", "Keyword", "Name", "Punctuation", "Operator", "Literal.String", "Other"]
     texts = {"empty": "", "whitespace-only": " \t", "newline": "\n", "has-non-whitespace": "x"}
     bad = []
     for k in kinds:
         for tn, tv in texts.items():
-            tok = AToken(k, tv if not k.startswith("Comment") or tn != "has-non-whitespace" else "# c")
             try:
-                res = MiniInterp(prj, hook).call(ft, [[tok]], {})
+                it = MiniInterp(prj)
+                tok = make_token(it, prj, k, tv if not k.startswith("Comment") or tn != "has-non-whitespace" else "# c")
+                res = it.call(ft, [[tok]], {})
                 res = list(res.rest()) if hasattr(res, "rest") else res
                 if not isinstance(res, (list, tuple)) or len(res) > 1 or (res and res[0] is not tok):
                     raise AnalysisError(f"filter_tokens([t]) evaluates to {res!r}: neither [] nor [t]")
@@ -182,6 +173,10 @@ def run(ctx, prj: Project):
     ctx.not_decided = ["invariance of pygments' token stream under insertion of comments/blank lines at every position of every file"]
     ctx.trust("pygments: Whitespace = Token.Text.Whitespace, Comment.* are sub-types of Comment; Text/Whitespace tokens may have empty text",
               "str.isspace / str.strip semantics (\"\".isspace() is False)")
-    rule_R1(ctx, prj)
+    from . import c01
+    evaluated = c01.rule_R5_pipeline(ctx, prj, rid="R4", clauses={"length", "functions", "span-start", "span-end", "reported-twice"})
+    if not evaluated:
+        rule_R1(ctx, prj)
     rule_R2(ctx, prj)
-    rule_R3(ctx, prj)
+    if not evaluated:
+        rule_R3(ctx, prj)
